@@ -19,7 +19,7 @@ SPECS["C17"] = {
                       "transition = (state, call kind, npts relation same/different/omitted/invalid)"),
     "real": ["esutil.integrate QGauss/QGauss2/qgauss/gauleg (Python and _cgauleg C)", "esutil.stat.interplin"],
     "stub": [],
-    "expect_reach": ["integrand_returns_an_array_it_keeps", "memoised_integrand_values_handed_out_again", "npts_changed_on_live_object", "call_after_aborted_call", "integrand_raised",
+    "expect_reach": ["object_ran_its_own_demonstration", "integrand_returns_an_array_it_keeps", "memoised_integrand_values_handed_out_again", "npts_changed_on_live_object", "call_after_aborted_call", "integrand_raised",
                      "bad_npts_rejected", "bad_range_rejected", "sibling_table_same_length_and_end_points",
                      "integrand_reenters_the_same_object", "interval_end_points_of_type_float32",
                      "caller_edited_a_result_in_place"],
@@ -68,7 +68,7 @@ SPECS["C20"] = {
     "stub": ["wall clock (SimClock installed as esutil.pbar.time and time.time)",
              "task latencies (virtual time; the resulting completion order is enforced on the real workers)",
              "the wrapped iterable and the consumer (instrumented)"],
-    "expect_reach": ["range_with_start_or_step", "pmap_used_inside_a_running_pmap_call", "clock_back", "clock_jump", "clock_stall", "consumer_abandoned", "source_raised",
+    "expect_reach": ["loop_body_runs_a_progress_bar_of_its_own", "range_with_start_or_step", "pmap_used_inside_a_running_pmap_call", "clock_back", "clock_jump", "clock_stall", "consumer_abandoned", "source_raised",
                      "lengthless_source", "wrong_total", "out_of_order_completion", "straggler", "exact_tie",
                      "more_workers_than_chunks", "empty_input", "chunk_larger_than_input", "single_worker",
                      "isplit_sweep_row", "sort_with_ties", "worker_process_killed", "task_raised",
@@ -136,7 +136,7 @@ SPECS["C01"] = _rec(
      "header_dict_read_from_an_earlier_file", "caller_edited_a_header_dict_it_was_handed",
      "caller_edited_a_result_in_place", "file_names_expanded_by_esutil_var", "file_names_expanded_by_esutil_home",
      "caller_refilled_its_work_buffer_after_a_write", "header_end_aligned_to_a_block_boundary",
-     "writer_dropped_without_close", "several_writes_on_one_handle", "reopen_for_append", "working_directory_changed_while_objects_were_open", "write_rejected_for_its_header_argument_then_repeated"],
+     "writer_dropped_without_close", "several_writes_on_one_handle", "reopen_for_append", "working_directory_changed_while_objects_were_open", "caller_looked_at_an_open_object", "write_rejected_for_its_header_argument_then_repeated"],
     ("seeded search over dtypes x values x headers x entry points x prior path contents x caller interleavings; every read "
      "is compared bit-for-bit with the written table and the file's bytes are parsed independently after every write. "
      "Sampling, not proof."),
@@ -155,7 +155,7 @@ SPECS["C04"] = _rec(
      "header_dict_read_from_an_earlier_file", "several_writes_on_one_handle", "reopen_for_append",
      "caller_edited_a_result_in_place", "file_names_expanded_by_esutil_var",
      "caller_refilled_its_work_buffer_after_a_write", "header_end_aligned_to_a_block_boundary",
-     "writer_dropped_without_close", "working_directory_changed_while_objects_were_open", "write_rejected_for_its_header_argument_then_repeated"],
+     "writer_dropped_without_close", "working_directory_changed_while_objects_were_open", "caller_looked_at_an_open_object", "write_rejected_for_its_header_argument_then_repeated"],
     ("seeded search as C01; values are compared exactly for integers and strings and to 16/7 significant digits for floats, "
      "NaN/inf preserved; independent tokenisation of the file's text. Sampling, not proof."),
     "working file system; magnitudes within 1e-14 (f8) / 1e-5 (f4) of the largest finite value are not generated (their "
@@ -171,7 +171,7 @@ SPECS["C02"] = _rec(
      "names that differ only in case. Non-trivial = a previous read, a rejected request or a re-open preceded a judged "
      "read on the same handle"),
     ["previous_read_on_same_handle", "read_after_rejected_request", "out_of_range_row_list",
-     "object_reopened_on_other_file", "interleaved_callers", "nonzero_offset", "caller_edited_a_result_in_place", "working_directory_changed_while_objects_were_open"],
+     "object_reopened_on_other_file", "interleaved_callers", "nonzero_offset", "caller_edited_a_result_in_place", "working_directory_changed_while_objects_were_open", "caller_looked_at_an_open_object"],
     ("seeded search over selections x access styles x handle histories (cursor left by the previous read, rejected "
      "requests, interleaved handles on one file); every result is compared bit-for-bit with numpy indexing of the table "
      "returned by a full read. Sampling, not proof."),
@@ -193,7 +193,7 @@ SPECS["C03"] = _rec(
      "chunk_handed_over_as_2d_array", "file_names_expanded_by_esutil_home", "caller_edited_a_result_in_place",
      "file_names_expanded_by_esutil_mixed", "empty_chunk_written_through_a_handle",
      "caller_refilled_its_work_buffer_after_a_write", "writer_dropped_without_close",
-     "append_with_other_delim_keyword", "working_directory_changed_while_objects_were_open", "write_rejected_for_its_header_argument_then_repeated"],
+     "append_with_other_delim_keyword", "working_directory_changed_while_objects_were_open", "caller_looked_at_an_open_object", "write_rejected_for_its_header_argument_then_repeated"],
     ("seeded search over operation histories; the model is the list of accepted chunks; after every mutating step with no "
      "writer open the file's bytes are parsed independently (SIZE line, END, rows x itemsize bytes or rows lines) and "
      "every read-back is compared with the concatenation. Sampling, not proof."),
@@ -252,7 +252,7 @@ SPECS["C10"] = {
                       "(state, call kind, flags)"),
     "real": ["esutil.wcsutil.WCS and helpers", "scipy.optimize.fsolve", "numpy.linalg"],
     "stub": [],
-    "expect_reach": ["aborted_call_asked_for_no_distortion", "interleaved_callers_on_one_object", "call_after_aborted_call", "call_aborted_half_way",
+    "expect_reach": ["caller_looked_at_the_object", "aborted_call_asked_for_no_distortion", "interleaved_callers_on_one_object", "call_after_aborted_call", "call_aborted_half_way",
                      "scalar_array_alternation", "lazy_inverse_fit_built_late", "lazy_inverse_fit_built_first",
                      "non_finite_input", "sky_position_far_from_the_field", "another_wcs_object_created_and_used",
                      "request_buffers_refilled_in_place", "caller_edited_a_result_in_place", "pixel_positions_of_type_f4"],
@@ -291,7 +291,7 @@ SPECS["C12"] = {
     "real": ["esutil.htm (Python, _htmc C++ and the HTM library)", "esutil.recfile via read_pairs", "glibc stdio",
              "kernel file system"],
     "stub": [],
-    "expect_reach": ["search_circle_covers_millions_of_leaves", "matcher_reused", "match_after_rejected_call", "stale_pair_file_at_output_path",
+    "expect_reach": ["oneshot_object_used_for_something_else_in_between", "search_circle_covers_millions_of_leaves", "matcher_reused", "match_after_rejected_call", "stale_pair_file_at_output_path",
                      "interleaved_matchers", "rejected_call_size_mismatch", "rejected_call_unwritable",
                      "oneshot_compared", "second_depth_compared", "oneshot_object_reused",
                      "oneshot_buffer_refilled_in_place", "presented_swapped", "presented_strided",
